@@ -137,6 +137,27 @@ pub fn spok_bundle<C: Cs>(ctx: &Ctx, st: &Setup<C>, r: &mut impl rand::RngCore, 
     })
 }
 
+/// large attribute counts with a few hidden positions (position-dependent code paths)
+pub fn large_bundles<C: Cs>(ctx: &Ctx, r: &mut impl rand::RngCore, shapes: &[(usize, Vec<usize>)]) -> Vec<Bundle> {
+    let mut v = vec![];
+    let nmax = shapes.iter().map(|s| s.0).max().unwrap_or(0);
+    if nmax == 0 {
+        return v;
+    }
+    let Some(st) = Setup::<C>::new(ctx, nmax) else { return v };
+    for (n, u) in shapes {
+        match spok_bundle::<C>(ctx, &st, r, *n, u) {
+            Some(b) => v.push(b),
+            None => ctx.inconclusive("proof_gen panicked for a large attribute count (C15's business)"),
+        }
+        match issuance_bundle::<C>(ctx, &st, r, *n, u) {
+            Some(b) => v.push(b),
+            None => ctx.inconclusive("generate_proof panicked for a large attribute count (C14's business)"),
+        }
+    }
+    v
+}
+
 /// all bundles for one setup: every hidden subset (non-empty for issuance)
 pub fn all_bundles<C: Cs>(ctx: &Ctx, st: &Setup<C>, r: &mut impl rand::RngCore, nmax: usize) -> Vec<Bundle> {
     let mut v = vec![];
